@@ -957,7 +957,7 @@ def fallback() -> str:
                ("exposure", "observation", "observation_dask", "calibration", "calibration_pygmo")],
         seed_truthiness=[], island_build=[("parallel", "BMap"), ("sequential", "BMap")],
         models=[dict(name=n, inside=1, outside=0, bare_seed=0, bracket_seed=True) for n in FALLBACK_MODELS],
-        seed_sites=[("pyxel.models.phasing.pulse_processing.pulse_processing", 1)],
+        seed_sites=[],
         numba_sites=[("pyxel.models.charge_transfer.emccd_poisson.poisson_register", 1),
                      ("pyxel.models.charge_transfer.emccd_poisson_cic.poisson_register", 2),
                      ("pyxel.models.charge_transfer.emccd_poisson_cic.multiplication_register_poisson", 1)],
@@ -965,7 +965,7 @@ def fallback() -> str:
     return emit(a)
 
 
-FALLBACK_OPEN_MODE = "calibration"   # C04-F1: run_calibration drops pipeline_seed (set to "" once repaired)
+FALLBACK_OPEN_MODE = ""   # no mode drops its seed (C04-F1 repaired)
 FALLBACK_MODELS = [
     "pyxel.models.charge_collection.fixed_pattern_noise.fixed_pattern_noise",
     "pyxel.models.charge_generation.charge_deposition.charge_deposition",
